@@ -448,6 +448,45 @@ func runC05(seed int64, n int, tier string, outDir string) (*Report, error) {
 			}
 		}
 	}
+	// directed: lists of pairwise DIFFERENT ids that resemble each other (a repeated query key with the same values in
+	// other proportions, the same URL embedded behind different hosts, a differing port): none is ignored
+	for li, ids := range [][]string{
+		{"https://example.com/search?tag=a&tag=a&tag=b", "https://example.com/search?tag=a&tag=b&tag=b"},
+		{"https://example.com/search?tag=a&tag=b", "https://example.com/search?tag=a&tag=a&tag=b", "https://example.com/search?tag=b&tag=b&tag=a&tag=a"},
+		{"https://alpha.example/share?u=https://gamma.example/notes/1", "https://beta.example/share?u=https://gamma.example/notes/1", "https://gamma.example/notes/1"},
+		{"https://example.com:8443/notes/1", "https://example.com/notes/1", "https://example.com/notes/1?x=1", "https://example.com/notes/1/x"},
+	} {
+		for _, shape := range []struct{ typ, term string }{{"Note", "to"}, {"Note", "tag"}, {"OrderedCollection", "orderedItems"}, {"Collection", "items"}, {"Create", "cc"}} {
+			q, _ := json.Marshal(ids)
+			text := []byte(`{"type":"` + shape.typ + `","id":"https://example.com/t","` + shape.term + `":` + string(q) + `}`)
+			y, err := ap.UnmarshalJSON(text)
+			rep.Evaluations++
+			rep.Count("directed-look-alike-ids")
+			rep.Distinguish(string(text), true)
+			if err != nil {
+				rep.Violate(Violation{Op: "decode reads what the document says", Input: string(text), Expected: "no error", Observed: err.Error()})
+				continue
+			}
+			var got ap.ItemCollection
+			switch shape.term {
+			case "orderedItems", "items":
+				_ = ap.OnCollectionIntf(y, func(c ap.CollectionInterface) error { got = c.Collection(); return nil })
+			default:
+				_ = ap.OnObject(y, func(o *ap.Object) error {
+					got = map[string]ap.ItemCollection{"to": o.To, "tag": o.Tag, "cc": o.CC}[shape.term]
+					return nil
+				})
+			}
+			same := len(got) == len(ids)
+			for i := 0; same && i < len(ids); i++ {
+				same = got[i] != nil && string(got[i].GetLink()) == ids[i]
+			}
+			if !same {
+				rep.Violate(Violation{Op: "decode reads what the document says", Input: string(text), Expected: fmt.Sprintf("%d members, as written", len(ids)), Observed: fmt.Sprint(got)})
+			}
+			cw.Add("("+hx(text)+", Ok "+CoqItem(y)+")", fmt.Sprintf("look-alike ids %d %s", li, shape.term))
+		}
+	}
 	// mocks
 	mocks, _ := filepath.Glob(filepath.Join(repoDir(), "tests", "mocks", "*.json"))
 	sort.Strings(mocks)
